@@ -17,6 +17,7 @@ def texts(rng, tier):
     A = [a for a in atoms() if not a.startswith("extra ") ]
     E = [a for a in atoms() if a.startswith("extra ")]
     out = list(A) + E
+    out.append('python_version in "3.10, 3.9" and python_version < "3.5"')      # the witness of finding D14, shown on every run
     # same-variable ==/!= chains against every atom on that variable (and / or, both orders): partial-overlap absorption rules
     G = group_texts()
     for gi, g in enumerate(G):
